@@ -22,6 +22,10 @@ What deviates from the property's wording and is stated precisely instead:
 * SQL and DynamoDB report a duplicate as `(false, error)`, the in-memory metastore as `(false, nil)`
   (`*_dup_error`); other backend failures are `(false, error)` as well and leave the table unchanged.
 * DynamoDB refuses empty key attribute values: the DynamoDB theorems are for non-empty ids.
+* `Store` is given a record (`Op.store` carries a `Rec`).  With a nil `*EnvelopeKeyRecord` — which the only
+  caller, envelope.go, never passes — both DynamoDB metastores panic (nil dereference) and the
+  in-memory/SQL metastores keep an entry that reads back as "not found" (`sql_malformed_row`: the text `null`);
+  observed on the real code, outside the property's quantifier ("all record contents").
 -/
 namespace AsherahVerif.Props.C13
 open AsherahVerif.Metastore
@@ -294,6 +298,23 @@ theorem sql_fault_error (s : SqlSetup) (db : Sql) (hd : db.dialect = s.dialect) 
   have ok : SqlOK (s.ms G.facts) db.dialect := by
     rw [generated_facts_eq_expected, hd]; exact sqlSetup_ok s
   simp only [sqlStep, sqlExec_fault db _ id c _ ok.store, and_self]
+
+/-- both DynamoDB metastores map every `PutItem` error to `(false, err)`: the failed condition of a duplicate … -/
+theorem ddb1_dup_error (d : Ddb) (t : Table) (h : DdbInv G.facts.v1 G.facts.codec1 d t) (id : String) (c : Int) (r : Rec)
+    (hid : id ≠ "") (hl : (t.load id c).isSome = true) :
+    (ddbStep G.facts.v1 G.facts.codec1 d.table d {} (.store id c r)).res = .stored false (some .cond) := by
+  have ok : DdbOK G.facts.v1 G.facts.codec1 := by rw [generated_facts_eq_expected]; exact ddb1_ok
+  have hput := ddbPut_sim ok h id c r hid
+  simp only [itemOf] at hput
+  simp only [ddbStep, hput, hl, if_true]
+
+theorem ddb2_dup_error (d : Ddb) (t : Table) (h : DdbInv G.facts.v2 G.facts.codec2 d t) (id : String) (c : Int) (r : Rec)
+    (hid : id ≠ "") (hl : (t.load id c).isSome = true) :
+    (ddbStep G.facts.v2 G.facts.codec2 d.table d {} (.store id c r)).res = .stored false (some .cond) := by
+  have ok : DdbOK G.facts.v2 G.facts.codec2 := by rw [generated_facts_eq_expected]; exact ddb2_ok
+  have hput := ddbPut_sim ok h id c r hid
+  simp only [itemOf] at hput
+  simp only [ddbStep, hput, hl, if_true]
 
 /-- a malformed row (reachable only by writing to the table behind the metastore's back): SQL Load
 reports an error, except for the JSON text `null`, which it reports as "not found" -/
